@@ -1,8 +1,8 @@
 // C08 correspondence harness: every distance entry point of the C API on one pair of geometries per input line.
-//   line:   <id> <hex WKB of A> <hex WKB of B> <densify fraction> [n]      (n: skip GEOSPreparedNearestPoints_r)
+//   line:   <id> <hex WKB of A> <hex WKB of B> <densify fraction> <margin> [n]      (n: skip GEOSPreparedNearestPoints_r)
 //   output: <id> key=value ...   doubles as 16-hex-digit bit patterns, EXC = the call reported an exception,
 //           point pairs as x0:y0:x1:y1, within tests as strings of 0/1/E for the thresholds
-//           [v, prev(v), next(v), 0, 2v, +inf] where v is the distance returned by the same family (plain / prepared)
+//           [v, prev(v), next(v), 0, 2v, +inf, v + margin, v - margin] where v is the distance returned by the same family (plain / prepared)
 #include <geos_c.h>
 #include <cmath>
 #include <cstdint>
@@ -31,8 +31,9 @@ static std::string pts(GEOSCoordSequence* cs) {
     GEOSCoordSeq_destroy_r(h, cs);
     return s;
 }
+static double g_margin = 0;
 static std::vector<double> thresholds(double v) {
-    return { v, std::nextafter(v, -INFINITY), std::nextafter(v, INFINITY), 0.0, 2 * v, INFINITY };
+    return { v, std::nextafter(v, -INFINITY), std::nextafter(v, INFINITY), 0.0, 2 * v, INFINITY, v + g_margin, v - g_margin };
 }
 static char bit(char c) { return c == 0 ? '0' : c == 1 ? '1' : 'E'; }
 
@@ -42,8 +43,9 @@ int main() {
     std::string line;
     while (std::getline(std::cin, line)) {
         std::stringstream ss(line); std::string id, wa, wb; double frac = 0.5;
-        std::string skip; ss >> id >> wa >> wb >> frac >> skip;
+        std::string skip; double margin = 0; ss >> id >> wa >> wb >> frac >> margin >> skip;
         bool skip_pnp = skip.find('n') != std::string::npos;
+        g_margin = margin;
         GEOSGeometry* a = rd(wa); GEOSGeometry* b = rd(wb);
         if (!a || !b) { printf("%s BADWKB\n", id.c_str()); fflush(stdout); continue; }
         std::string o = id;
